@@ -16,20 +16,27 @@ What the verification suite you are trying to slip past does (so do not bother w
 it runs the real code and an executable reference model on the same generated inputs and compares every
 observable result (items, values, error kind and line:column, reader window/position/mark/flags, number of
 reads, bytes reaching the sink), in debug AND release builds; each document is parsed under several read
-schedules (one-shot, 1-byte, 2-byte, random short reads with Interrupted, one line per read) and through every
-constructor (new / from_read / from_boxed_dyn_read / from_buf_reader); faults are injected at every offset of
-small documents and at random offsets of large ones, with varying io::ErrorKind; numerals at all type
-boundaries and wrap-around classes; exhaustive enumeration of short strings for the scanners and of the
-combinator table; independent oracles (round trip against constructed values, independent lexer for accepted
-numbers, exact error location for corrupted tokens, semantic simulation for circuits, allocation counter);
-and 'scale' families that stretch every size-like dimension (bytes, run lengths, tokens per line, items,
-lines, stream position, pre-buffered bytes, variables) to 2^20 and beyond, with sizes placed around every
-integer constant that occurs in the source (c-1, c, c+1, 2c, ...).  A plain size threshold will therefore be
-found; so will anything that changes behaviour on small generic inputs.  Look instead for: rare combinations
-of states or options, rarely used public entry points or type parameters, interactions between operations
-(order, repetition, state left behind by an earlier call or an earlier error), differences that only show in
-what is NOT consumed / NOT written, or conditions on the content (not the size) of the input that random
-generation is unlikely to produce.
+schedules (one-shot, 1-byte, 2-byte, random short reads with Interrupted, one line per read, one byte per read
+with the exact number of bytes pulled checked per item), through every constructor (new / from_read /
+from_boxed_dyn_read / from_buf_reader), and also after the caller has already looked at the head of the stream
+(request(k) before building the parser); faults are injected at every offset of small documents and at random
+offsets of large ones, with varying io::ErrorKind; sources whose read() panics or over-reports, sinks that
+fail, return short counts or panic; writers dropped normally and during unwinding; writer objects reused for
+a second document; numerals at all type boundaries and wrap-around classes; exhaustive enumeration of short
+strings for the scanners and of the combinator table; comment / symbol / ignored-line text drawn from all 256
+byte values with emphasis on one-bit neighbours of delimiters; every string, byte-string and integer literal
+that occurs in the source is used as a dictionary (spliced into documents as prefix / at line starts, sizes
+placed around every integer constant: c-1, c, c+1, 2c, ...); 'scale' families stretch every size-like
+dimension (bytes, run lengths, tokens per line, items, lines, stream position, pre-buffered bytes, variables,
+recursion depth) to 2^20 and beyond; user-defined literal types that assert the trait contract; per-call
+allocation bounds; independent oracles (round trip against constructed values, independent lexer for accepted
+numbers, exact error location for corrupted tokens, semantic simulation for circuits).  A plain size
+threshold, a magic prefix that appears as a literal in your patch, or anything that changes behaviour on small
+generic inputs WILL be found.  Look instead for: rare combinations of states or options, sequences of API calls
+the suite is unlikely to try (order, repetition, state left behind by an earlier call or an earlier error),
+differences that only show in what is NOT consumed / NOT written, arithmetic that goes wrong only for
+particular value relations (not sizes), or conditions on the content of the input that neither random
+generation nor a literal dictionary is likely to produce.
 """ if hard else ""
 txt = f"""You are helping to evaluate a verification suite for the Rust workspace in {wt} (a git worktree of the
 library 'flussab': deferred buffered reader/writer, parser combinators, DIMACS CNF/WCNF/GCNF + SAT solver log,
